@@ -121,7 +121,7 @@ func toI64(v interface{}) int64 {
 
 // Eval evaluates the query from the root.
 func (r *Ref) Eval() map[string]interface{} {
-	res, _ := r.evalObject("Query", reflect.Value{}, "", r.Q.Sels, nil).(map[string]interface{})
+	res, _ := r.evalObject(r.Q.Root(), reflect.Value{}, "", r.Q.Sels, nil).(map[string]interface{})
 	return res
 }
 
